@@ -13,7 +13,7 @@ def ks_nontrivial(evs):
     return False
 
 X_KS_JOB = job("x_ks",
-    harness="x_ks_rec", inc=["common", "kll", "quantiles"], spec="TraceXKs", owners=["X01"],
+    harness="x_ks_rec", inc=["common", "kll", "quantiles"], spec="TraceXKs", owners=["X01"], rec_timeout=120,
     files={Q: 8, T: 48}, par=8,
     args=lambda tier, seed, k, profile: ["--seed", seed, "--pairs", 36 if tier == Q else 80, "--maxn", 40000],
     nontrivial=ks_nontrivial,
@@ -51,7 +51,7 @@ def args_nontrivial(evs):
 
 X_ARGS_GROUPS = ["distinct", "quantiles", "frequency", "filters", "sampling", "nan"]
 X_ARGS_JOB = job("x_args",
-    harness="x_args_rec", inc=None, spec="TraceXArgs", owners=["X02"],
+    harness="x_args_rec", inc=None, spec="TraceXArgs", owners=["X02"], rec_timeout=300,
     files={Q: 6, T: 18}, par=6,
     # one file per family group, so that a defect of one family does not hide the others
     args=lambda tier, seed, k, profile: ["--seed", seed, "--extra", 3 if tier == Q else 12, "--group", X_ARGS_GROUPS[k % 6]],
@@ -88,7 +88,7 @@ def conv_nontrivial(evs):
     return len(c) == 2 and c[0]["src"]["est"] and c[1]["src"]["n"] > c[0]["src"]["n"] and c[1]["src"]["r"] < c[0]["src"]["r"] + (c[1]["src"]["n"] - c[0]["src"]["n"])
 
 X_CONV_JOB = job("x_conv",
-    harness="x_conv_rec", inc=["common", "kll", "req", "quantiles"], spec="TraceXConv", owners=["X03"],
+    harness="x_conv_rec", inc=["common", "kll", "req", "quantiles"], spec="TraceXConv", owners=["X03"], rec_timeout=120,
     files={Q: 8, T: 32}, par=8,
     args=lambda tier, seed, k, profile: ["--seed", seed, "--rounds", 4 if tier == Q else 10],
     nontrivial=conv_nontrivial,
@@ -125,7 +125,7 @@ def jaccard_nontrivial(evs):
     return False
 
 X_JACCARD_JOB = job("x_jaccard",
-    harness="x_jaccard_rec", inc=["common", "theta", "tuple"], spec="TraceXJaccard", owners=["X04"],
+    harness="x_jaccard_rec", inc=["common", "theta", "tuple"], spec="TraceXJaccard", owners=["X04"], rec_timeout=120,
     files={Q: 8, T: 32}, par=8,
     args=lambda tier, seed, k, profile: ["--seed", seed, "--pairs", 40 if tier == Q else 80, "--maxlgk", 9 if tier == Q else 12, "--points", 6 if tier == Q else 20],
     nontrivial=jaccard_nontrivial,
@@ -160,7 +160,7 @@ def suggest_nontrivial(evs):
     return bool(kinds & {"CmBuckets", "CmHashes", "Refuse", "BloomBits"})
 
 X_SUGGEST_JOB = job("x_suggest",
-    harness="x_suggest_rec", inc=["common", "count", "filters"], spec="TraceXSuggest", owners=["X05"],
+    harness="x_suggest_rec", inc=["common", "count", "filters"], spec="TraceXSuggest", owners=["X05"], rec_timeout=120,
     files={Q: 4, T: 16}, par=4,
     # one file per helper group, so that a defect of one helper does not hide the others
     args=lambda tier, seed, k, profile: ["--seed", seed, "--extra", 10 if tier == Q else 60, "--part", ["cm-buckets", "cm-hashes", "cm-refuse", "bloom"][k % 4]],
@@ -194,7 +194,7 @@ def tostring_nontrivial(evs):
     return any(e["e"] == "ToString" and e["variant"] not in ("summary",) and e["len"] > 400 for e in evs)
 
 X_TOSTRING_JOB = job("x_tostring",
-    harness="x_tostring_rec", inc=None, spec="TraceXToString", owners=["X06"],
+    harness="x_tostring_rec", inc=None, spec="TraceXToString", owners=["X06"], rec_timeout=120,
     files={Q: 6, T: 24}, par=6,
     args=lambda tier, seed, k, profile: ["--seed", seed, "--rounds", 2 if tier == Q else 5],
     nontrivial=tostring_nontrivial,
